@@ -54,6 +54,14 @@ func applyArmorMut(text string, m ArmorMut) string {
 		lines = lines[:len(lines)-1]
 	}
 	n := len(lines)
+	if n == 0 {
+		// (an earlier mutation truncated the text to nothing: only the kinds that add text still apply)
+		switch m.Kind {
+		case "ws_before", "ws_after", "ws_lines_before", "garbage_before", "garbage_after", "blanks_in_begin_line":
+		default:
+			return text
+		}
+	}
 	join := func(ls []string) string { return strings.Join(ls, "") }
 	bodyIdx := func(k int) int { // index of a body line (1..n-2) if any
 		if n <= 2 {
